@@ -42,9 +42,8 @@ pub fn par_map<T: Sync, R: Send>(items: &[T], threads: usize, f: impl Fn(usize, 
             });
         }
     });
-    if watched {
-        crate::watchdog::working_on(desc);
-    }
+    // the caller stays off the watch list: if it goes on with work of its own on the code under
+    // test it declares that with watchdog::working_on / idle around that section
     let mut v = out.into_inner().unwrap();
     v.sort_by_key(|x| x.0);
     v.into_iter().map(|x| x.1).collect()
@@ -192,7 +191,9 @@ pub fn check(tier: Tier, threads: usize) -> CheckOutcome {
 
     // ---- A1: every frame is taken from exactly 24 + body-length bytes (decoder, fresh state) ----
     let mut a1 = 0u64;
+    crate::watchdog::working_on("C09 frame-exact (decoder, one frame at a time)".into());
     for f in &frames {
+        crate::watchdog::beat();
         let b = f.bytes();
         let (o, residue) = run_decoder(&[&b]);
         a1 += 1;
@@ -214,6 +215,8 @@ pub fn check(tier: Tier, threads: usize) -> CheckOutcome {
             );
         }
     }
+
+    crate::watchdog::idle();
 
     // ---- A2: decoder-level segmentation independence ----
     struct Job {
